@@ -234,6 +234,27 @@ def run(ctx):
         ctx.ob("C13.b", ci.qual, whole, "Frame.validate receives the whole frame", func=ci.qual, file=file, construct="Frame.validate(frame_mv)",
                fail="Frame.validate is applied to something else than the whole received frame")
 
+    # ---------------------------------------------------------------- C13.d a rejected frame is rejected *as such*
+    # Response.construct(frame) on arbitrary frame bytes escapes only with the two exceptions the device layer treats as
+    # "invalid frame, skip it" (may-raise analysis; a helper / message expression that raises something else makes a corrupted
+    # frame abort the exchange instead of being dropped).
+    from ..raises import Config, Raises, Val
+    R_ = Raises(prog, Config())
+    cfn = ctx.fn(f"{CMD}.Response.construct")
+    _rv, esc = R_.analyze(cfn, {cfn.params[-1]: Val(taint=True, kind="bytes")}, self_cls=prog.cls(f"{CMD}.Response"))
+    allowed = ("msmart.frame.InvalidFrameException", f"{CMD}.InvalidResponseException")
+    bad = [e for e in esc if not any(prog.exc_is(str(e), a) for a in allowed)]
+    ctx.count("construct_escapes", len(esc))
+    ctx.ob("C13.d", cfn.qual, not bad, "Response.construct rejects with InvalidFrameException / InvalidResponseException only", func=cfn.qual, file=cfn.module.rel,
+           construct="exceptions escaping Response.construct") if not bad else None
+    seen_d = set()
+    for e in bad:
+        k = (str(e), e.site["function"], e.site["construct"])
+        if k in seen_d:
+            continue
+        seen_d.add(k)
+        ctx.ob("C13.d", e.site["function"], False, "", func=e.site["function"], file=e.site["file"], construct=f"{e.site['construct']} -> {e}",
+               fail=f"{e} can escape Response.construct [{e.why}] via {' -> '.join(q.split('.')[-1] for q in e.chain)}: a corrupted frame is not dropped as invalid")
     # ---------------------------------------------------------------- C13.c state is only touched by valid responses
     g = ctx.fn(GETR)
     gs = summarize(prog, g)
